@@ -16,7 +16,7 @@ RULE = ("the C15 configuration space (model tags x rated power x all subsets of 
 ASSUMPTIONS = ["the simulated inverter answers every read with exactly 2 x count payload bytes",
                "values decoded from a refused block's predecessor response would also show as foreign reads in C12/C15; this "
                "check decides only 'no reported value is fabricated from missing bytes'"]
-MUST = ["single_read_windows_checked", "fallback_read_lost_for_another_reason", "connect_while_inverter_silent", "offered_sensors_checked", "single_reads_observed", "overlapping_polls", "poll_with_transient_rejection", "poll_after_failed_device_info", "tcp_wrong_mbap_length", "configs_run", "reads_observed", "block_running", "block_battery", "block_battery2", "block_meter_basic",
+MUST = ["firmware_version_variants", "poll_with_one_block_read_unanswered", "single_read_windows_checked", "fallback_read_lost_for_another_reason", "connect_while_inverter_silent", "offered_sensors_checked", "single_reads_observed", "overlapping_polls", "poll_with_transient_rejection", "poll_after_failed_device_info", "tcp_wrong_mbap_length", "configs_run", "reads_observed", "block_running", "block_battery", "block_battery2", "block_meter_basic",
         "block_meter_ext", "block_meter_ext2", "block_mppt", "block_dt_running", "block_dt_meter", "block_es_runtime"]
 EXHAUSTIVE = {"quick": False, "thorough": True}
 
@@ -29,7 +29,7 @@ def check_config(cfg, part, rl, port=8899, mbap=None, rerun_info=False):
     g = env.goodwe()
     fam = cfg["family"]
     case = {"config": cfg, "port": port, "mbap": mbap}
-    tag = f"{fam} {cfg['tag']} rated={cfg['rated']} refused={cfg['refused']} battery={cfg['battery']}"
+    tag = f"{fam} {cfg['tag']} rated={cfg['rated']} refused={cfg['refused']} battery={cfg['battery']} fw={cfg.get('fw_versions')}"
 
     async def failing_device_info_then_poll(inv, sim, loop, res_):
         """history: a repeated read_device_info() gets no answer (reconnect), the next poll must still decode only what it fetched"""
@@ -99,6 +99,28 @@ def check_config(cfg, part, rl, port=8899, mbap=None, rerun_info=False):
                     res_["short_reads"].append((10 + j,) + entry)
             del sim.exc_map[(3, reg, count)]
             part.count("poll_with_transient_rejection")
+        # ... and for one poll each, one block read gets NO answer at all (lost on the way); that poll and the two after it
+        for j, (reg, count) in enumerate(blocks_read):
+            armed_ = {"on": True}
+            orig_handle_ = sim.handle
+
+            def handle_(req, kind, _o=orig_handle_, _a=armed_, _k=(reg, count)):
+                if _a["on"] and req["kind"] == "read" and (req["reg"], req.get("count")) == _k:
+                    _a["on"] = False
+                    return None
+                return _o(req, kind)
+            sim.handle = handle_
+            for _ in range(3):
+                rl.start()
+                try:
+                    await inv.read_runtime_data()
+                except g.InverterError:
+                    pass
+                for entry in rl.stop():
+                    if entry[3] < entry[2]:
+                        res_["short_reads"].append((70 + j,) + entry)
+            sim.handle = orig_handle_
+            part.count("poll_with_one_block_read_unanswered")
         await failing_device_info_then_poll(inv, sim, loop, res_)
 
     async def single_reads_and_overlapping_polls(inv, sim, loop, res_):
@@ -205,7 +227,7 @@ def check_config(cfg, part, rl, port=8899, mbap=None, rerun_info=False):
     part.evaluations += 1
     part.count("configs_run")
     case = {"config": cfg, "port": port, "mbap": mbap}
-    tag = f"{fam} {cfg['tag']} rated={cfg['rated']} refused={cfg['refused']} battery={cfg['battery']}"
+    tag = f"{fam} {cfg['tag']} rated={cfg['rated']} refused={cfg['refused']} battery={cfg['battery']} fw={cfg.get('fw_versions')}"
     if run.stop or run.error is not None:
         part.violate(f"C14/{fam}/setup-failed", f"{tag}: {run.stop or repr(run.error)}", case)
         return
@@ -295,7 +317,13 @@ def run_shard(spec):
     rl = CountingReadLog(g)
     tier = spec["tier"]
     allc = list(configs.et_configs(g, tier)) + list(configs.dt_configs(g, tier)) + list(configs.es_configs(g, tier))
+    fwv = configs.firmware_variants()          # firmware dimension: each configuration runs with one (DSP1, DSP2, ARM) version triple
     for i, cfg in enumerate(allc):
+        if cfg["family"] in ("ET", "DT"):
+            cfg = dict(cfg, fw_versions=fwv[(i * 5 + env.seed()) % len(fwv)])
+            if cfg["fw_versions"] is not None:
+                part.count("firmware_version_variants")
+
         if i % spec["shards"] != spec["shard"]:
             continue
         check_config(cfg, part, rl, 8899, rerun_info=("transient" if i % 10 == 5 else "overlap" if i % 10 == 3 else "connect" if i % 10 == 7 else i % 5 == 0))
